@@ -10,6 +10,7 @@
 # and every expression tree of the caller that contains the call node (same sid) gets the returned expression
 # (single return) or the synthetic variable '$ret<n>' instead.
 import copy
+import re
 
 MAX_DEPTH = 3
 MAX_BLOCKS = 40
@@ -58,12 +59,19 @@ def _is_this(e):
 
 
 class Inliner:
-    def __init__(self, raw):
+    def __init__(self, raw, flatten=()):
         self.raw = raw
         self.fns = raw.get("functions", [])
         self.by_id = {f["id"]: f for f in self.fns}
         self.helpers = {}
+        # flatten: helpers of the reference tree that a rule wants to see *through* (the rule is written against the
+        # entry point with the helper's body in place, so it reads the same whether or not the helper exists)
+        frx = [re.compile(x) for x in flatten]
         for f in self.fns:
+            flat = any(r.search(f.get("qname", "")) for r in frx) and f.get("parent", -1) == -1
+            if flat:
+                f["new_helper"] = True
+                f["_flattened"] = True
             if f.get("new_helper") and not f.get("pattern") is None:
                 self.helpers.setdefault(f["qname"], []).append(f)
         self.counter = 0
@@ -309,8 +317,8 @@ class Inliner:
         return True
 
 
-def normalise(raw):
-    inl = Inliner(raw)
+def normalise(raw, flatten=()):
+    inl = Inliner(raw, flatten)
     try:
         return inl.run()
     except Exception:
